@@ -150,6 +150,11 @@ def _r3(ck: Checker, prog: Program, f) -> Tuple[Optional[str], Optional[str]]:
 
     def fresh_array_of(st: ast.Assign) -> Optional[str]:
         v = st.value
+        if isinstance(v, ast.Call) and isinstance(v.func, ast.Attribute) and v.func.attr == "copy" and not v.args and isinstance(v.func.value, ast.Name):
+            # <array>.copy() of a local that is np.array(<decision list>), bound once: a fresh array of the list
+            defs_ = [d for d in own_nodes(f.node) if isinstance(d, ast.Assign) and len(d.targets) == 1 and isinstance(d.targets[0], ast.Name) and d.targets[0].id == v.func.value.id]
+            if len(defs_) == 1:
+                v = defs_[0].value
         if isinstance(v, ast.Call) and dotted(v.func) in ("np.array", "numpy.array", "np.copy", "numpy.copy") and v.args and isinstance(v.args[0], ast.Name):
             dt = kwarg(v, "dtype")
             if dt is not None and unparse(dt) not in ("bool", "np.bool_", "numpy.bool_"):
@@ -510,6 +515,10 @@ def _mask_pass_names(f):
     for st in ast.walk(f.node):
         if isinstance(st, ast.Assign) and any(isinstance(t, ast.Attribute) and t.attr in MASKS for t in st.targets):
             v = st.value
+            if isinstance(v, ast.Call) and isinstance(v.func, ast.Attribute) and v.func.attr == "copy" and not v.args and isinstance(v.func.value, ast.Name):
+                defs_ = [d for d in own_nodes(f.node) if isinstance(d, ast.Assign) and len(d.targets) == 1 and isinstance(d.targets[0], ast.Name) and d.targets[0].id == v.func.value.id]
+                if len(defs_) == 1:
+                    v = defs_[0].value          # <array>.copy() of np.array(<decision list>)
             if isinstance(v, ast.Call) and v.args and isinstance(v.args[0], ast.Name):
                 mv.add(v.args[0].id)
     rets = [r for r in own_nodes(f.node) if isinstance(r, ast.Return) and isinstance(r.value, ast.Name)]
